@@ -44,6 +44,133 @@ def write_alphabet(proj):
     return valid, invalid
 
 
+def memory_problem(proj, pre, reqs, res):
+    """After a write call: every successful request's data is in memory, nothing else changed (tags addressed only by failed requests are unconstrained)."""
+    want = {k: bytearray(v) for k, v in pre.items()}
+    care = {k: bytearray(b"\xff" * len(v)) for k, v in pre.items()}
+    touched = set()
+    ok_tags = set()
+    for (text, value), g in zip(reqs, res):
+        try:
+            touched.add(Q.parse_request(proj, text).tag.full_name)
+        except Q.Bad:
+            pass
+        e = Q.write_expect(proj, text, value)
+        if bool(g) and e.ok:
+            img, mask = e.after(want[e.tag.full_name])
+            want[e.tag.full_name][:] = img
+            for j, m in enumerate(mask):
+                care[e.tag.full_name][j] &= m
+            ok_tags.add(e.tag.full_name)
+    for t in proj.all_tags():
+        nm = t.full_name
+        if nm in touched and nm not in ok_tags:
+            continue  # addressed only by failed requests: not constrained
+        if any((x ^ y) & m for x, y, m in zip(t.data, want[nm], care[nm])):
+            return f"{nm} differs from the reference after the call"
+    return None
+
+
+REFUSALS = [(0x04, []), (0x05, [0x0002]), (0xFF, [0x2199]), (0xFF, []), (0x1F, []), (0x01, [0x9999]), (0xFF, [0x2105]), (0x10, []), (0x0F, [])]
+TAG_SERVICES = (0x4C, 0x52, 0x4D, 0x53, 0x4E)
+
+
+def run_refusals(rep, cfg, proj, ctl, d, op, alone, statuses=REFUSALS):
+    """Deviation bound 1 on the controller's answers: in every call of a family of request lists, the n-th tag service
+    (for every n, also inside multi-service packets and fragment sequences) is refused with each status of `statuses`."""
+    alpha, want = alone["alpha"], alone["want"]
+    valid = [i for i, okv in enumerate(want) if okv]
+    name_of = lambda i: alpha[i] if op == "read" else alpha[i][0]
+    base_tag = {}
+    for i in valid:
+        base_tag[i] = Q.parse_request(proj, name_of(i)).tag.full_name
+    lists = [(i,) for i in valid]
+    a, b = valid[0], valid[3]
+    for i in valid:
+        if len({base_tag[a], base_tag[i], base_tag[b]}) == 3:
+            lists += [(a, i, b), (i, a, b)]
+    frag = 5  # the fragmented request of both alphabets
+    lists.append(tuple(x for x in valid if base_tag[x] not in (base_tag[valid[1]],))[:6])
+    state = {"n": 0, "target": -1, "forced": None, "hit": None}
+
+    def hook(req, info):
+        if req.service not in TAG_SERVICES:
+            return None
+        state["n"] += 1
+        if state["n"] != state["target"]:
+            return None
+        try:
+            state["hit"] = ctl.resolve(req.path).tag.full_name
+        except Exception:  # noqa
+            state["hit"] = "?"
+        st, ext = state["forced"]
+        return (st, list(ext), b"")
+
+    def run(lst):
+        reqs = [alpha[i] for i in lst]
+        state.update(n=0, hit=None)
+        if op == "read":
+            return reqs, call(d.read, *reqs)
+        return reqs, call(d.write, *(reqs if len(reqs) > 1 else reqs[0]))
+
+    ctl.status_hook = hook
+    try:
+        for lst in lists:
+            pre = proj.snapshot()
+            state.update(target=-1)
+            reqs, out0 = run(lst)
+            proj.restore(pre)
+            nserv = state["n"]
+            base = out0[1] if out0[0] == "ok" else None
+            if base is not None and not isinstance(base, list):
+                base = [base]
+            if base is None or len(base) != len(lst) or not all(base):
+                continue  # the un-refused call is judged by the other shards
+            for nth in range(1, nserv + 1):
+                for forced in statuses:
+                    state.update(target=nth, forced=forced)
+                    reqs, out = run(lst)
+                    probs = []
+                    if out[0] != "ok":
+                        probs.append(("exception", f"{op} raised {out!r:.120}"))
+                    else:
+                        res = out[1] if isinstance(out[1], list) else [out[1]]
+                        if len(res) != len(lst):
+                            probs.append(("shape", f"{len(lst)} requests but {len(res)} results"))
+                        else:
+                            bad = [c for c in map(tag_ok, res) if c]
+                            if bad:
+                                probs.append(("truthiness-contract", bad[0]))
+                            failed = [k for k, g in enumerate(res) if not g]
+                            hit = state["hit"]
+                            if hit is None:
+                                pass  # the call ended before reaching the n-th service (an earlier refusal cannot happen here)
+                            elif not failed:
+                                probs.append(("refusal-swallowed", f"the controller refused service #{nth} (on {hit}) with status {forced[0]:#04x} {forced[1]} but every request reports success"))
+                            else:
+                                for k in failed:
+                                    if base_tag[lst[k]] != hit:
+                                        probs.append(("isolation", f"#{k} {name_of(lst[k])!r} failed ({str(res[k].error)[:50]!r}) although the refused service #{nth} addressed {hit}"))
+                                        break
+                            if op == "read":
+                                for k, g in enumerate(res):
+                                    if g and not Q.same_value(g.value, base[k].value):
+                                        probs.append(("isolation", f"#{k} {name_of(lst[k])!r}: value differs from the un-refused call"))
+                                        break
+                            else:
+                                m = memory_problem(proj, pre, reqs, res)
+                                if m:
+                                    probs.append(("memory", m))
+                    proj.restore(pre)
+                    rep.case((cfg, op, "refuse", lst, nth, forced[0], tuple(forced[1])), outcome="refused-ok" if not probs else probs[0][0])
+                    for clause, detail in probs[:2]:
+                        pos = "first" if nth == 1 else "last" if nth == nserv else "middle"
+                        rep.violation(f"{op}/refused-service/{clause}/{pos}", f"{cfg}: {op} of {[name_of(i) for i in lst]!r:.160}, service #{nth}/{nserv} refused with {forced[0]:#04x} {[hex(x) for x in forced[1]]}: {detail}",
+                                      {"cfg": list(cfg), "op": op, "list": list(lst), "kind": "refusals", "nth": nth, "forced": [forced[0], list(forced[1])]})
+    finally:
+        ctl.status_hook = None
+
+
 def tag_ok(g):
     """Truthiness contract: truthy <=> value is not None and error is None; falsy -> non-empty error."""
     try:
@@ -71,6 +198,7 @@ def shards(tier, seed):
                 for part in range(4):
                     sh.append(("lists", pers, conn, op, part))
                 sh.append(("straddle", pers, conn, op, 0))
+                sh.append(("refusals", pers, conn, op, 0))
     return sh
 
 
@@ -123,29 +251,9 @@ def run_list(rep, cfg, proj, ctl, d, op, lst, alone, sigk):
                 elif bool(g) and g.type != a.type:
                     probs.append(("isolation", f"#{k} {text!r}: type {g.type!r} in the list, {a.type!r} alone"))
             if op == "write":
-                want = {k: bytearray(v) for k, v in pre.items()}
-                care = {k: bytearray(b"\xff" * len(v)) for k, v in pre.items()}
-                touched = set()
-                for k, (i, g) in enumerate(zip(lst, res)):
-                    text, value = reqs[k]
-                    try:
-                        touched.add(Q.parse_request(proj, text).tag.full_name)
-                    except Q.Bad:
-                        pass
-                    e = Q.write_expect(proj, text, value)
-                    if bool(g) and e.ok:
-                        img, mask = e.after(want[e.tag.full_name])
-                        want[e.tag.full_name][:] = img
-                        for j, m in enumerate(mask):
-                            care[e.tag.full_name][j] &= m
-                ok_tags = {Q.write_expect(proj, reqs[k][0], reqs[k][1]).tag.full_name for k, g in enumerate(res) if bool(g) and Q.write_expect(proj, reqs[k][0], reqs[k][1]).ok}
-                for t in proj.all_tags():
-                    nm = t.full_name
-                    if nm in touched and nm not in ok_tags:
-                        continue  # addressed only by failed requests: not constrained
-                    if any((x ^ y) & m for x, y, m in zip(t.data, want[nm], care[nm])):
-                        probs.append(("memory", f"{nm} differs from the reference after the call"))
-                        break
+                m = memory_problem(proj, pre, reqs, res)
+                if m:
+                    probs.append(("memory", m))
     if pre is not None:
         proj.restore(pre)
     rep.case((cfg, op, tuple(lst)), outcome=("ok:" + "".join("T" if alone["want"][i] else "F" for i in lst)[:8]) if not probs else probs[0][0])
@@ -207,6 +315,9 @@ def run_shard(shard, tier, seed):
         for lst in lists:
             run_list(rep, cfg, proj, ctl, d, op, lst, alone, f"len{len(lst)}")
         rep.sample({"config": cfg, "op": op, "lists": len(lists), "example": [alone["alpha"][i] if op == "read" else alone["alpha"][i][0] for i in lists[len(lists) // 2]]})
+    elif kind == "refusals":
+        run_refusals(rep, cfg, proj, ctl, d, op, alone)
+        rep.sample({"config": cfg, "op": op, "refusal_statuses": [(hex(a), [hex(x) for x in b]) for a, b in REFUSALS]})
     else:
         # straddling lists: n medium requests, one special inserted at every position
         med_i = 2 if op == "read" else 2  # BOOL range (read) / aligned BOOL range write: medium size, idempotent
@@ -244,6 +355,14 @@ def replay(r):
     proj, ctl, t, w, d, o = open_world(cfg[0], cfg[1], cfg[2], 0, choices=(), reduced=True)
     fill_image(proj, 0)
     alone = prepare(proj, ctl, d, r["op"])
+    if r["kind"] == "refusals":
+        rep = Report()
+        run_refusals(rep, tuple(cfg), proj, ctl, d, r["op"], alone)
+        hit = [v for vs in rep.violations.values() for v in vs]
+        for v in hit[:3]:
+            print("  violates:", v.sig, "::", v.msg[:400])
+        w.__exit__()
+        return not hit
     if r["kind"].startswith("straddle"):
         print("(straddling case: re-run the check shard to reproduce)")
     rep = Report()
